@@ -20,7 +20,7 @@ EXPLANATION = (
     "portfolio used incrementally (add_assertion / push / pop / reset / is_sat / solve, 11 sequences): the formula "
     "handed to every member process is the conjunction of the live assertions, plus the one-shot formula of is_sat (R7).  Text-interface "
     "members: when the solver process ends without answering, the reply read terminates with an error (R5, "
-    "interpreted against the reference solver process).")
+    "interpreted against the reference solver process).  A value asked for after a race in which every member failed is an error, not a request nobody answers (control pipe modelled on the parent's side); the portfolio used as a context manager lets errors through.")
 NOT_DECIDED = ["the model / value obtained afterwards through the control pipe (the surviving member's side of the pipe "
                "protocol is interpreted only up to its first message)",
                "operating-system effects: a member killed while it holds the queue's lock"]
